@@ -237,6 +237,7 @@ def run_check(args):
     nviol = 0
     replays = []
     MAX_GROUPS, MAX_SHRUNK = 10, 10
+    unstable = []
     ordered = sorted(groups.items(), key=lambda kv: str(kv[0]))
     if getattr(args, "only_key", None):
         ordered = [kv for kv in ordered if args.only_key in str(kv[0])]
@@ -252,9 +253,13 @@ def run_check(args):
             case = mod_g.focus(case, v)
         res1 = batch.run_case(eng, case)
         batch.put_first(res1, cls)
-        if res1.get("harness_error") or not batch.has_class(res1, cls):
-            out(f"HARNESS-ERROR violation of seed {r['seed']} ({cls} [{key}]) did not reproduce in-process: {res1.get('harness_error') or res1['violations'][:1]}")
+        if res1.get("harness_error"):
+            out(f"HARNESS-ERROR re-running seed {r['seed']} ({cls} [{key}]): {res1['harness_error']}")
             return batch.EXIT_HARNESS
+        if not batch.has_class(res1, cls):
+            # seen in a batch worker, gone when the case runs alone in a fresh child
+            unstable.append((cls, key, f"seed {r['seed']}", f"hermetic re-run gave {res1['violations'][:1]}"))
+            continue
         small, rs = case, res1
         if gi < MAX_SHRUNK:
             cand = batch.shrink_case(eng, case, res1, budget_s=60)
@@ -265,8 +270,13 @@ def run_check(args):
         if gi < MAX_SHRUNK:
             ok, log = batch.replay_fresh(path)
             if not ok:
-                out(f"HARNESS-ERROR replay {path} did not reproduce exactly in a fresh interpreter:\n{log[-1500:]}")
-                return batch.EXIT_HARNESS
+                # not replayable in a fresh process: either the simulator is not
+                # deterministic (my bug) or state leaked between runs of one worker
+                # process (module-level state in the code under test).  Never reported
+                # as a VIOLATION; if nothing replayable is found the run is a harness error.
+                unstable.append((cls, key, path, log[-600:]))
+                os.unlink(path)
+                continue
         out(f"  {cls} [{key}] x{len(items)}: {rs['violations'][0]['msg'][:400]}")
         out(f"VIOLATION property={prop} replay={path}")
         replays.append(path)
@@ -287,11 +297,21 @@ def run_check(args):
                     out(f"HARNESS-ERROR regression replay {rp}: {rr['harness_error']}")
                     return batch.EXIT_HARNESS
                 if rr["violations"]:
+                    e2 = dict(os.environ, PYTHONHASHSEED="0", EKOSIM_NO_REEXEC="1")
+                    pr = subprocess.run([sys.executable, os.path.join(env.VERIF, "check.py"), "--replay", full, "--quiet"], env=e2, capture_output=True, text=True, timeout=900)
+                    if pr.returncode != batch.EXIT_VIOLATION:
+                        unstable.append(("regression:" + f["id"], None, full, pr.stdout[-400:]))
+                        continue
                     nviol += 1
                     out(f"  repaired finding {f['id']} is back: {rr['violations'][0]['msg'][:300]}")
                     out(f"VIOLATION property={prop} replay={full}")
                     replays.append(full)
                     exit_code = batch.EXIT_VIOLATION
+    for cls, key, path, log in unstable:
+        out(f"  UNSTABLE {cls} [{key}]: seen in the batch but not reproduced by its replay file in a fresh interpreter (state leaking between runs, or a nondeterministic simulator)")
+    if unstable and exit_code != batch.EXIT_VIOLATION:
+        out("HARNESS-ERROR violations were observed that do not replay in a fresh interpreter: " + unstable[0][3])
+        return batch.EXIT_HARNESS
     if len(ordered) > MAX_GROUPS:
         out(f"  ... and {len(ordered) - MAX_GROUPS} more distinct violation groups (not replayed individually)")
 
